@@ -55,6 +55,7 @@ Proof. unfold G, sinit, ps_init. rewrite gact_repeat, map_repeat. reflexivity. Q
 Definition fock_run (n : nat) (h : list op) := prun fock fock_step (prog_init n, fock_init n) h.
 Definition gauss_run (n : nat) (h : list op) := prun ps gauss_step (prog_init n, ps_init n) h.
 Definition bos_run (n : nat) (h : list op) := prun ps bos_step (prog_init n, ps_init n) h.
+Definition bos_run_old (n : nat) (h : list op) := prun ps bos_step_old (prog_init n, ps_init n) h.
 Definition spec_run (n : nat) (h : list op) : sstate := srun (sinit n) h.
 
 Lemma fock_run_sim n h : fock_run n h = (P (spec_run n h), F (spec_run n h)).
@@ -69,10 +70,16 @@ Proof.
   apply (prun_sim ps gauss_step G anyop); [intros; apply gauss_step_ok; auto | apply forallb_anyop].
 Qed.
 
-Lemma bos_run_sim n h : forallb new_le1 h = true -> bos_run n h = (P (spec_run n h), G (spec_run n h)).
+Lemma bos_run_sim n h : bos_run n h = (P (spec_run n h), G (spec_run n h)).
 Proof.
-  intros H. unfold bos_run. rewrite <- P_init, <- G_init.
-  apply (prun_sim ps bos_step G new_le1); [intros; apply bos_step_ok; auto | exact H].
+  unfold bos_run. rewrite <- P_init, <- G_init.
+  apply (prun_sim ps bos_step G anyop); [intros; apply bos_step_ok; auto | apply forallb_anyop].
+Qed.
+
+Lemma bos_run_old_sim n h : forallb new_le1 h = true -> bos_run_old n h = (P (spec_run n h), G (spec_run n h)).
+Proof.
+  intros H. unfold bos_run_old. rewrite <- P_init, <- G_init.
+  apply (prun_sim ps bos_step_old G new_le1); [intros; apply bos_step_old_ok; auto | exact H].
 Qed.
 
 (* ---- register alone: index for life *)
@@ -122,10 +129,15 @@ Lemma agree_gauss n h :
   ps_modes (snd (gauss_run n h)) = slives (spec_run n h).
 Proof. rewrite gauss_run_sim; simpl. split; [apply prog_register_P | apply ps_modes_G]. Qed.
 
-Lemma agree_bos n h : forallb new_le1 h = true ->
+Lemma agree_bos n h :
   prog_register (fst (bos_run n h)) = slives (spec_run n h) /\
   ps_modes (snd (bos_run n h)) = slives (spec_run n h).
-Proof. intros H. rewrite bos_run_sim by exact H; simpl. split; [apply prog_register_P | apply ps_modes_G]. Qed.
+Proof. rewrite bos_run_sim; simpl. split; [apply prog_register_P | apply ps_modes_G]. Qed.
+
+Lemma agree_bos_old n h : forallb new_le1 h = true ->
+  prog_register (fst (bos_run_old n h)) = slives (spec_run n h) /\
+  ps_modes (snd (bos_run_old n h)) = slives (spec_run n h).
+Proof. intros H. rewrite bos_run_old_sim by exact H; simpl. split; [apply prog_register_P | apply ps_modes_G]. Qed.
 
 (* ---- rejection / acceptance *)
 Lemma reject_fock n h o : sstep (spec_run n h) o = None ->
@@ -150,22 +162,30 @@ Proof.
   apply (pstep_ok ps gauss_step G anyop); auto. intros; apply gauss_step_ok; auto.
 Qed.
 
-Lemma reject_bos n h o : forallb new_le1 h = true -> sstep (spec_run n h) o = None ->
+Lemma reject_bos n h o : sstep (spec_run n h) o = None ->
   exists e, pstep ps bos_step (bos_run n h) o = (bos_run n h, Err e).
-Proof. intros Hh H. rewrite bos_run_sim by exact Hh. apply pstep_bad; exact H. Qed.
+Proof. intros H. rewrite bos_run_sim. apply pstep_bad; exact H. Qed.
+
+Lemma accept_bos n h o s' : sstep (spec_run n h) o = Some s' ->
+  pstep ps bos_step (bos_run n h) o = (bos_run n (h ++ [o]), Ok).
+Proof.
+  intros H. rewrite !bos_run_sim. unfold spec_run. rewrite srun_app. simpl srun. unfold sstep'. fold (spec_run n h). rewrite H.
+  apply (pstep_ok ps bos_step G anyop); auto. intros; apply bos_step_ok; auto.
+Qed.
 
 (* ---- state content *)
 Lemma state_fock n h : fock_state (snd (fock_run n h)) = view (spec_run n h).
 Proof. rewrite fock_run_sim; simpl. apply fock_state_F. Qed.
 
-Lemma state_gauss_prefix n h : prefix_live (spec_run n h) -> gauss_state (snd (gauss_run n h)) = view (spec_run n h).
-Proof. intros H. rewrite gauss_run_sim; simpl. apply gauss_state_G_prefix; exact H. Qed.
+Lemma state_gauss n h : gauss_state (snd (gauss_run n h)) = view (spec_run n h).
+Proof. rewrite gauss_run_sim; simpl. apply gauss_state_G. Qed.
 
-Lemma state_gauss_repaired n h : bos_state (snd (gauss_run n h)) = view (spec_run n h).
-Proof. rewrite gauss_run_sim; simpl. apply bos_state_G. Qed.
+Lemma state_bos n h : bos_state (snd (bos_run n h)) = view (spec_run n h).
+Proof. rewrite bos_run_sim; simpl. apply bos_state_G. Qed.
 
-Lemma state_bos n h : forallb new_le1 h = true -> bos_state (snd (bos_run n h)) = view (spec_run n h).
-Proof. intros H. rewrite bos_run_sim by exact H; simpl. apply bos_state_G. Qed.
+(* the old Gaussian slot selection (before /repo 23cb098) *)
+Lemma state_gauss_old_prefix n h : prefix_live (spec_run n h) -> gauss_state_old (snd (gauss_run n h)) = view (spec_run n h).
+Proof. intros H. rewrite gauss_run_sim; simpl. apply gauss_state_old_G_prefix; exact H. Qed.
 
 (* histories without deletion keep every index live, so the Gaussian state() is right on them *)
 Definition no_del (o : op) : bool := match o with Del _ => false | _ => true end.
@@ -220,9 +240,9 @@ Qed.
 Lemma sinit_all_live n : forallb is_some (sinit n) = true.
 Proof. unfold sinit. induction n; simpl; auto. Qed.
 
-Lemma state_gauss_no_del n h : forallb no_del h = true -> gauss_state (snd (gauss_run n h)) = view (spec_run n h).
+Lemma state_gauss_old_no_del n h : forallb no_del h = true -> gauss_state_old (snd (gauss_run n h)) = view (spec_run n h).
 Proof.
-  intros H. apply state_gauss_prefix. apply all_live_prefix. apply srun_no_del_all_live; [exact H | apply sinit_all_live].
+  intros H. apply state_gauss_old_prefix. apply all_live_prefix. apply srun_no_del_all_live; [exact H | apply sinit_all_live].
 Qed.
 
 (* ---- what [view] means: exactly the live indices, in increasing order, each with its own data *)
